@@ -329,7 +329,10 @@ def case_resume(cfg, K, poisons, seed):
     return CaseResult(fails=fails, states=states, transitions=trans, traces=states, outcome=f"{c['kind']}:{c['dtype']}:{states}", extra={"checkpoints": K + 1, "poison_variants": len(scratch_names)})
 
 
-def case_helper(present, body_time_equal):
+BODY_TIME_GAPS = ["+0.125", "+1ulp", "-1ulp", "+1e-9rel", "-1e-6rel", "+1e-4"]  # ways the body time can disagree with the flow time
+
+
+def case_helper(present, body_time_equal, gap="+0.125"):
     """Restart helper: picks the largest index, returns its time, refuses when nothing exists or
     flow and body times disagree."""
     import elastica as ea
@@ -373,7 +376,16 @@ def case_helper(present, body_time_equal):
             fio.save(h5_file_name=f"forcing_grid_{idx:04d}.h5", time=times[idx])
         latest = max(present) if present else None
         s, cyl = mk()
-        body_t = (times[latest] if latest is not None else 0.0) + (0.0 if body_time_equal else 0.125)
+        body_t = times[latest] if latest is not None else 0.0
+        if not body_time_equal:
+            # "disagree" means any difference at all: a restart that pairs flow fields with the body state of a
+            # neighbouring instant is what the refusal exists to prevent
+            if gap.endswith("ulp"):
+                body_t = float(np.nextafter(body_t, np.inf if gap[0] == "+" else -np.inf))
+            elif gap.endswith("rel"):
+                body_t = body_t * (1.0 + float(gap[:-3])) if body_t != 0 else float(gap[:-3])
+            else:
+                body_t = body_t + float(gap)
         cyl.position_collection[0, 0] = 0.37
         ea.save_state(s, "restart_data", body_t)
         s2, cyl2 = mk()
@@ -387,7 +399,7 @@ def case_helper(present, body_time_equal):
             raised = None
         except Exception as e:  # noqa: BLE001
             t, raised = None, e
-        ctx = dict(present=list(present), body_time_equal=body_time_equal)
+        ctx = dict(present=list(present), body_time_equal=body_time_equal, gap=None if body_time_equal else gap, flow_time=times[latest] if latest is not None else None, body_time=body_t)
         if not present:
             if not isinstance(raised, FileNotFoundError):
                 fails.append(Fail("helper:no-checkpoint", "restart helper did not raise FileNotFoundError although no checkpoint exists", got=repr(raised) if raised else f"returned {t}", **ctx))
@@ -407,7 +419,7 @@ def case_helper(present, body_time_equal):
     finally:
         os.chdir(cwd)
         shutil.rmtree(d, ignore_errors=True)
-    return CaseResult(fails=fails, states=1, transitions=1, traces=1, outcome=f"helper:{sorted(present)}:{body_time_equal}")
+    return CaseResult(fails=fails, states=1, transitions=1, traces=1, outcome=f"helper:{sorted(present)}:{body_time_equal}:{gap if not body_time_equal else ''}")
 
 
 CASES = {"resume": case_resume, "helper": case_helper}
@@ -434,6 +446,8 @@ def run(r) -> None:
     r.run_cases("resume", "resume", cases)
     names = [0, 3, 10]
     helper = [dict(present=list(sub), body_time_equal=eq) for n in range(len(names) + 1) for sub in itertools.combinations(names, n) for eq in (True, False)]
+    # every kind of disagreement (down to one ulp) at small and large checkpoint times
+    helper += [dict(present=list(sub), body_time_equal=False, gap=g) for sub in ([1], [0, 7], [3, 100], [12345]) for g in BODY_TIME_GAPS[1:]]
     # larger name alphabet, every creation order: the listing order of the directory must not matter
     more = [1, 7, 25, 100, 2048, 9999, 10000, 12345]  # incl. indices with more digits than the zero padding
     for n in (2, 3):
